@@ -1,4 +1,5 @@
 """C08 — bigBed zoom levels are faithful reductions of coverage depth."""
+import json
 from checks.bbi_family import *
 
 
@@ -37,6 +38,12 @@ def main():
                      "msum": {"bases": 0, "sum": 0, "sumsq": 0, "min": 0, "max": 0, "int": 1},
                      "opts": {"ips": 4, "bs": 3, "zmode": "auto", "izs": [10, 160][k % 2], "maxz": 10, "zooms": [], "compress": k % 2, "inmem": 1, "rt": "multi", "threads": 2,
                               "pass": 1 + (k // 2) % 2, "chan": 100, "sort": "all"}})
+    # more manual zoom sizes than the header has room for (10 entries): the file must stay readable and every level it lists faithful
+    for k, a in enumerate(list(auto)[:2]):
+        m = json.loads(json.dumps(a))
+        m["opts"].update({"zmode": "manual", "zooms": [2, 3, 4, 6, 8, 12, 16, 24, 32, 48, 64, 96], "pass": 1 + k})
+        m["nomech"] = 1          # no mechanism-level expectation for these (which ten levels are kept is not modelled)
+        auto.append(m)
     def nt(o):
         if o["opts"].get("zmode") == "auto":
             return True
